@@ -22,6 +22,9 @@ package deviceshare
 //                                                   Filter; only the verdict is observed, nothing is committed
 //  11 kind                                          node labels: 0 none, 1 gpu-model H800 + gpu-partition-policy
 //                                                   Honor, 2 gpu-model H800 (built-in Hopper partition table)
+//  12 pod                                           like 5, but the delete is delivered as an informer tombstone
+//                                                   (cache.DeletedFinalStateUnknown by value, as after a re-list)
+//  13                                               like 7, Device CR deletion delivered as a tombstone
 // types: 0 gpu (slots gpu-core, gpu-memory-ratio, gpu-memory), 1 rdma (slot rdma), 2 fpga (slot fpga);
 // a slot value -1 means "key absent".
 // observable = per op: code [allocations] summary   (see vtC07Summary)
@@ -37,6 +40,7 @@ import (
 	"k8s.io/apimachinery/pkg/api/resource"
 	metav1 "k8s.io/apimachinery/pkg/apis/meta/v1"
 	"k8s.io/apimachinery/pkg/types"
+	k8scache "k8s.io/client-go/tools/cache"
 	fwktype "k8s.io/kube-scheduler/framework"
 	"k8s.io/kubernetes/pkg/scheduler/framework"
 	"k8s.io/utils/ptr"
@@ -333,16 +337,23 @@ func vtC07Exec(in []int64) []int64 {
 				cache.onPodAdd(vtC07Pod(id, nil))
 				obs = append(obs, -1)
 			}
-		case 5:
+		case 5, 12:
 			id := in[pos]
 			pos++
+			del := func(p *corev1.Pod) {
+				if op == 12 {
+					cache.onPodDelete(k8scache.DeletedFinalStateUnknown{Key: "default/" + p.Name, Obj: p})
+				} else {
+					cache.onPodDelete(p)
+				}
+			}
 			if r, ok := live[id]; ok {
-				cache.onPodDelete(vtC07Pod(id, r.allocs))
+				del(vtC07Pod(id, r.allocs))
 				last[id] = r.allocs
 				delete(live, id)
 				obs = append(obs, 0)
 			} else {
-				cache.onPodDelete(vtC07Pod(id, last[id])) // duplicate delete, or delete of a pod never seen
+				del(vtC07Pod(id, last[id])) // duplicate delete, or delete of a pod never seen
 				obs = append(obs, -1)
 			}
 		case 6, 8:
@@ -366,8 +377,12 @@ func vtC07Exec(in []int64) []int64 {
 				live[id] = &vtC07Rec{allocs: allocs}
 			}
 			obs = append(obs, 0)
-		case 7:
-			cache.onDeviceDelete(lastDevice)
+		case 7, 13:
+			if op == 13 {
+				cache.onDeviceDelete(k8scache.DeletedFinalStateUnknown{Key: vtC07Node, Obj: lastDevice})
+			} else {
+				cache.onDeviceDelete(lastDevice)
+			}
 			obs = append(obs, 0)
 		case 9:
 			id := in[pos]
@@ -910,7 +925,42 @@ func (g *vtC07G) partitionCase() (string, []int64) {
 	return label, in
 }
 
+// vtC07Gen: one of the styles below; afterwards a third of the pod / Device CR deletions are
+// turned into deletions learnt from a re-list (tombstones).
 func vtC07Gen(r *rand.Rand, i int) (string, []int64) {
+	label, in := vtC07GenStyle(r, i)
+	nops := int(in[0])
+	pos := 1
+	for k := 0; k < nops; k++ {
+		switch in[pos] {
+		case 1:
+			pos += 2 + 8*int(in[pos+1])
+		case 2:
+			pos += 9
+		case 3, 4, 9, 11:
+			pos += 2
+		case 5:
+			if r.Intn(3) == 0 {
+				in[pos] = 12
+			}
+			pos += 2
+		case 6, 8:
+			pos += 3 + 5*int(in[pos+2])
+		case 7:
+			if r.Intn(3) == 0 {
+				in[pos] = 13
+			}
+			pos++
+		case 10:
+			pos += 10 + int(in[pos+9])
+		default:
+			panic("vtC07Gen: unknown op")
+		}
+	}
+	return label, in
+}
+
+func vtC07GenStyle(r *rand.Rand, i int) (string, []int64) {
 	g := &vtC07G{r: r}
 	g.style = []string{"plain", "plain", "plain", "churn", "churn", "degenerate", "sharing", "partition"}[r.Intn(8)]
 	g.topo = r.Intn(5) < 2
